@@ -374,7 +374,7 @@ func c17Run(c *core.C) {
 				}
 			}
 		}
-		if c.Idx%16 == 5 && fam == 0 {
+		if c.Idx%16 == 5 && c.Idx < 4000 && fam == 0 { // (bounded: 250 long chains in the thorough tier)
 			// one long straight chain (16 ... 129 attenuation blocks): counts beyond any buffer sized for "a few blocks"
 			want := []int{16, 17, 32, 33, 64, 65, 128, 129}[c.Idx/16%8]
 			for p := 0; len(f.Tokens[p].T.Blocks)-1 < want; {
